@@ -282,8 +282,19 @@ def monC10 (h : Hist) : Option String :=
         if faulted && x.res.kind == "resp" && !Spec.hasDirective Spec.rfc ri.req.header (str% "only-if-cached") then
           let readFault := (h.stores ri.n "fg").any fun s => s.op == "get" &&
             (s.result == "err" || (match s.val with | .raw _ => true | .ent _ false => true | _ => false))
+          -- a truncated entry of a reply whose framing told its length (Content-Length, chunked) is detectable
+          let truncated := h.faults.any fun f => f.n = ri.n && f.stream == "fg" && f.kind == "trunc"
+          let shortBody := match x.token with
+            | some (m, k) => (match h.reply m k, h.frame m k with
+              | some rp, some (fr, _) => m ≠ ri.n && fr != "close" && rp.bodyFail < 0 && !x.res.bodyErr && x.res.body ≠ rp.resp.body
+              | _, _ => false)
+            | none => false
           if readFault && x.fromStore && x.fgCalls.isEmpty then
             some s!"exchange {ri.n}: a store read failed or was undecodable, yet the response came from the store"
+          else if truncated && x.fromStore && shortBody then
+            some s!"exchange {ri.n}: the stored bytes were truncated, yet a response with a shortened body was served from the store"
+          else if x.fromStore && x.res.bodyErr && (match x.token with | some (m, k) => (match h.reply m k with | some rp => rp.bodyFail < 0 | none => false) | none => false) then
+            some s!"exchange {ri.n}: a response was served from the store whose body cannot be read to the end"
           else match x.fgReply h, x.token with
             | some rp, some (n, _) =>
               if n = ri.n && rp.resp.status ≠ x.res.status then some s!"exchange {ri.n}: status {x.res.status} differs from the origin's {rp.resp.status}" else none
